@@ -79,31 +79,48 @@ def do_import(wt: str, sid: str, prop: str) -> int:
     return 0 if ok else 1
 
 
-def do_run(sid: str, props: list[str]) -> int:
+def do_run(sid: str, props: list[str], in_repo: bool = False) -> int:
+    """Default: run the checks against a scratch copy of /repo/src with the patch applied (GALLIA_SRC), so that
+    nothing else using /repo is disturbed; --in-repo applies the patch to /repo itself and undoes it afterwards."""
     d = SEEDED / sid
     meta = json.loads((d / "meta.json").read_text())
     props = props or [meta["property"]]
-    rc, out = sh("git -C /repo status --porcelain")
-    if out.strip():
-        print("refusing: /repo has uncommitted changes:\n" + out)
-        return 2
-    rc, out = sh(f"git -C /repo apply {d / 'patch.diff'}")
-    if rc != 0:
-        print("patch does not apply to /repo:", out)
-        return 2
+    tmp = None
+    env = {}
+    if in_repo:
+        rc, out = sh("git -C /repo status --porcelain")
+        if out.strip():
+            print("refusing: /repo has uncommitted changes:\n" + out)
+            return 2
+        rc, out = sh(f"git -C /repo apply {d / 'patch.diff'}")
+        if rc != 0:
+            print("patch does not apply to /repo:", out)
+            return 2
+    else:
+        tmp = tempfile.mkdtemp(prefix="seedrun-")
+        shutil.copytree("/repo/src", f"{tmp}/src")
+        rc, out = sh(f"patch -p1 -s < {d / 'patch.diff'}", cwd=tmp)
+        if rc != 0:
+            print("patch does not apply:", out)
+            shutil.rmtree(tmp, ignore_errors=True)
+            return 2
+        env = {"GALLIA_SRC": f"{tmp}/src"}
     results = {}
     try:
         for p in props:
             ev = ROOT / "evidence" / f"{p}.json"
             keep = ev.read_text() if ev.exists() else None
-            rc, out = sh(f"./check {p} --tier quick", cwd=str(ROOT), timeout=3600)
+            rc, out = sh(f"./check {p} --tier quick", cwd=str(ROOT), env=env, timeout=3600)
             lines = [l for l in out.splitlines() if l.startswith(("VIOLATION", "  violated", "OK ", "MACHINERY", "KNOWN"))]
-            results[p] = {"rc": rc, "lines": lines[:8]}
+            results[p] = {"rc": rc, "lines": lines[:8], "mode": "in-repo" if in_repo else "GALLIA_SRC copy"}
             if keep is not None:
                 ev.write_text(keep)  # evidence must describe the unchanged tree
             print(p, "rc=", rc, "|", " | ".join(lines[:4]))
     finally:
-        sh("git -C /repo checkout -- .")
+        if in_repo:
+            sh("git -C /repo checkout -- .")
+        if tmp:
+            shutil.rmtree(tmp, ignore_errors=True)
     meta.setdefault("check_runs", {}).update(results)
     meta["caught_by"] = sorted(p for p, r in meta["check_runs"].items() if r["rc"] == 1)
     (d / "meta.json").write_text(json.dumps(meta, indent=1))
@@ -114,5 +131,6 @@ if __name__ == "__main__":
     if sys.argv[1] == "import":
         sys.exit(do_import(sys.argv[2], sys.argv[3], sys.argv[4]))
     if sys.argv[1] == "run":
-        sys.exit(do_run(sys.argv[2], sys.argv[3:]))
+        args = [a for a in sys.argv[3:] if a != "--in-repo"]
+        sys.exit(do_run(sys.argv[2], args, in_repo="--in-repo" in sys.argv))
     print(__doc__)
